@@ -36,59 +36,29 @@ MulAcc(x, v, z, i) ==
 LMul(x, y) == MulAcc(x, y, LZero, 0)            \* on limb tuples
 GMul128(a, b) == Unlimbs(LMul(Limbs(a), Limbs(b)))   \* on 16-byte blocks
 
-\* ---- GHASH over a byte string whose length is a multiple of 16
+\* ---- GHASH on limb tuples (kept for T_Guard / T_Accel and speed: no conversion per block)
 RECURSIVE GHashAcc(_, _, _, _)
 GHashAcc(h, x, i, y) ==
   IF i > Len(x) THEN y
   ELSE GHashAcc(h, x, i + 16, LMul(LXor(y, Limbs(SubSeq(x, i, i + 15))), h))
-GHash(H, x) == Unlimbs(GHashAcc(Limbs(H), x, 1, LZero))
 
-PadTo16(x) == x \o Zeros((16 - (Len(x) % 16)) % 16)
 Len64(nbytes) ==        \* [8 * nbytes]_64, nbytes < 2^28
   <<0, 0, 0, 0>> \o WToBytes(<< (nbytes \div 8192) % 65536, (nbytes % 8192) * 8 >>)
 
-\* ---- counter mode
-Inc32(cb) == SubSeq(cb, 1, 12) \o WToBytes(WAdd(WFromBytes(cb, 13), <<0, 1>>))
-RECURSIVE GCtrAcc(_, _, _, _, _, _)
-GCtrAcc(rk, cb, x, i, last, acc) ==      \* blocks starting at i, up to position last
-  IF i > last THEN <<acc, cb>>
-  ELSE LET n == IF i + 15 <= last THEN 16 ELSE last - i + 1
-       IN GCtrAcc(rk, Inc32(cb), x, i + 16, last, acc \o XorBytes(SubSeq(x, i, i + n - 1), EK(rk, cb)))
-\* two-level accumulation (1024-byte chunks) keeps the evaluation linear in Len(x): the meaning
-\* is simply  x XOR (E(cb) || E(cb+1) || ...)  truncated to Len(x)
-RECURSIVE GCtrChunks(_, _, _, _, _)
-GCtrChunks(rk, cb, x, i, acc) ==
-  IF i > Len(x) THEN acc
-  ELSE LET last == IF i + 1023 <= Len(x) THEN i + 1023 ELSE Len(x)
-           r == GCtrAcc(rk, cb, x, i, last, <<>>)
-       IN GCtrChunks(rk, r[2], x, i + 1024, acc \o r[1])
-GCtr(rk, icb, x) == GCtrChunks(rk, icb, x, 1, <<>>)
-
-\* ---- the mode
-HashKey(rk) == EK(rk, Zeros(16))
-J0(H, iv) == IF Len(iv) = 12 THEN iv \o <<0, 0, 0, 1>>
-             ELSE GHash(H, PadTo16(iv) \o Zeros(8) \o Len64(Len(iv)))
-Tag(rk, H, j0, aad, c, t) ==
-  LET s == GHash(H, PadTo16(aad) \o PadTo16(c) \o Len64(Len(aad)) \o Len64(Len(c)))
-  IN SubSeq(XorBytes(s, EK(rk, j0)), 1, t)
-
-\* Seal: ciphertext followed by the tag truncated to t bytes
-Seal(rk, iv, aad, p, t) ==
-  LET H == HashKey(rk)
-      j0 == J0(H, iv)
-      c == GCtr(rk, Inc32(j0), p)
-  IN c \o Tag(rk, H, j0, aad, c, t)
-
-\* Open: [ok |-> TRUE, pt |-> ...] or [ok |-> FALSE, pt |-> <<>>]
-Open(rk, iv, aad, ct, t) ==
-  IF Len(ct) < t THEN [ok |-> FALSE, pt |-> <<>>]
-  ELSE LET H == HashKey(rk)
-           j0 == J0(H, iv)
-           c == SubSeq(ct, 1, Len(ct) - t)
-           tg == SubSeq(ct, Len(ct) - t + 1, Len(ct))
-       IN IF Tag(rk, H, j0, aad, c, t) = tg
-          THEN [ok |-> TRUE, pt |-> GCtr(rk, Inc32(j0), c)]
-          ELSE [ok |-> FALSE, pt |-> <<>>]
+\* ---- the mode: SP 800-38D is written once, over an abstract block, in module GCMG; this is
+\* its production instance (16-byte blocks, 32-bit counter, GF(2^128), 64-bit bit lengths,
+\* 96-bit fast-path IV)
+LenBlock128(alen, clen) == Len64(alen) \o Len64(clen)
+IVTail128(ivlen) == Zeros(8) \o Len64(ivlen)
+M == INSTANCE GCMG WITH BS <- 16, CS <- 4, Base <- 256, FMul <- GMul128,
+                        LenBlock <- LenBlock128, IVTail <- IVTail128, StdIV <- 12
+GHash(H, x) == M!GHash(H, x)
+Inc32(cb) == M!Inc(cb)
+GCtr(rk, icb, x) == M!GCtr(rk, icb, x)
+HashKey(rk) == M!HashKey(rk)
+J0(H, iv) == M!J0(H, iv)
+Seal(rk, iv, aad, p, t) == M!Seal(rk, iv, aad, p, t)
+Open(rk, iv, aad, ct, t) == M!Open(rk, iv, aad, ct, t)
 
 \* ---- published vectors
 \* GCM specification (McGrew, Viega) test case 2: X1 = C * H
